@@ -131,7 +131,7 @@ func (d *dImpl) step(t []string) string {
 	arity := map[string]string{
 		"new": "v", "init": "l", "pf": "lv", "pb": "lv", "ib": "lvh", "ia": "lvh",
 		"pfn": "lh", "pbn": "lh", "inb": "lhh", "ina": "lhh", "mtf": "lh", "mtb": "lh",
-		"mb": "lhh", "ma": "lhh", "rm": "lh", "pbl": "ll", "pfl": "ll", "front": "l", "back": "l",
+		"mb": "lhh", "ma": "lhh", "rm": "lh", "pbl": "ll", "pfl": "ll", "front": "l", "back": "l", "len": "l",
 		"next": "h", "prev": "h",
 	}
 	sig, ok := arity[op]
@@ -230,6 +230,8 @@ func (d *dImpl) step(t []string) string {
 		for i := len(cs) - 1; i >= 0; i-- {
 			d.reg(cs[i])
 		}
+	case "len":
+		return strconv.Itoa(ls[0].Len())
 	case "front":
 		return d.show(ls[0].Front())
 	case "back":
@@ -343,7 +345,7 @@ func checkD(c core.Case, out []string) *core.Failure {
 		}
 		need := map[string][2]int{"new": {0, 0}, "init": {1, 0}, "pf": {1, 0}, "pb": {1, 0}, "ib": {1, 1}, "ia": {1, 1},
 			"pfn": {1, 1}, "pbn": {1, 1}, "inb": {1, 2}, "ina": {1, 2}, "mtf": {1, 1}, "mtb": {1, 1}, "mb": {1, 2}, "ma": {1, 2},
-			"rm": {1, 1}, "pbl": {2, 0}, "pfl": {2, 0}, "front": {1, 0}, "back": {1, 0}, "next": {0, 1}, "prev": {0, 1}}
+			"rm": {1, 1}, "pbl": {2, 0}, "pfl": {2, 0}, "front": {1, 0}, "back": {1, 0}, "len": {1, 0}, "next": {0, 1}, "prev": {0, 1}}
 		nd, ok := need[t[0]]
 		if !ok || bad || len(ls) != nd[0] {
 			return nil // malformed line: nothing to say
@@ -439,6 +441,8 @@ func checkD(c core.Case, out []string) *core.Failure {
 			for k := len(cs) - 1; k >= 0; k-- {
 				d.reg(cs[k])
 			}
+		case "len":
+			res = strconv.Itoa(ls[0].Len())
 		case "front":
 			res = d.show(ls[0].Front())
 		case "back":
@@ -693,7 +697,11 @@ func genD(r *core.Rand, tier string) core.Case {
 		case 16:
 			lines = append(lines, "front "+L)
 		case 17:
-			lines = append(lines, "back "+L)
+			if r.Bool() {
+				lines = append(lines, "back "+L)
+			} else {
+				lines = append(lines, "len "+L)
+			}
 		case 18, 19:
 			e := g.pick(r, k)
 			if e < 0 {
